@@ -108,6 +108,20 @@ def run_unit(ctx, unit_name, targets=None, search_map=None, only_labels=None, ti
         except LostAnchor as e:
             lab = getattr(e, 'label', None)
             if lab is None or lab in pre_forced or len(pre_forced) >= 4:
+                gone = getattr(e, 'missing_label', None)
+                if gone is not None and (only_labels is None or gone in only_labels):
+                    # an extracted function no longer exists (e.g. a trait method override was removed and the default now
+                    # applies): the unit cannot be assembled, but its paired search can still produce a witness
+                    s_ = Searcher(search_crate or unit_name, ctx)
+                    w = None
+                    for tgt in (search_map or {}).get(gone, [gone]):
+                        w = s_.search(tgt)
+                        if w:
+                            break
+                    if w:
+                        ctx.violation('%s|%s|missing+witness' % (unit_name, gone),
+                                      '%s: the function under contract no longer exists (%s); paired search found a failing input' % (gone, str(e)[:200]),
+                                      str(e), witness=w, replay_cmd=s_.replay_cmd(w), engine='verus:' + unit_name + '+search')
                 ctx.undecide('lost anchor in unit %s: %s' % (unit_name, e))
                 return None
             pre_forced[lab] = str(e)
@@ -161,8 +175,9 @@ def run_unit(ctx, unit_name, targets=None, search_map=None, only_labels=None, ti
             for sp in e.get('spans', []):
                 if sp.get('label'):
                     labs.add(sp['label'])
-            if not labs:
-                ok = False
+            if not labs and e.get('spans'):
+                ok = False          # an error located outside every extracted function: cannot be attributed
+            # (an error without any span — rustc repeats some diagnostics that way — is attributed by its located twin)
             forced |= labs
         if ok and forced:
             try:
